@@ -84,6 +84,7 @@ type Engine struct {
 	curRange                 *ssa.Range
 	poolPrivate              map[*Value]Value
 	syncMaps                 map[*Value]*MapV
+	solverAlt                string
 	orderFree                map[*ssa.Range]bool
 }
 
